@@ -333,13 +333,37 @@ class Interp(object):
             return
         enter = True
         if k != 'DoStmt' and c0 is not None:
-            enter = self.truth(fr, c0, depth, label_hint='LOOP')
+            cv0 = self.ev(fr, c0, depth)
+            if isinstance(cv0, (int, bool)) and getattr(self.model, 'unroll_loops', False):
+                # concretely decided loop condition: unroll precisely while it stays decided (bounded)
+                n_iter = 0
+                cur = cv0
+                while isinstance(cur, (int, bool)) and cur:
+                    n_iter += 1
+                    if n_iter > 64:
+                        raise AnalysisBroken('dtab: loop at %s does not terminate within 64 concrete iterations' % fr.f.loc(n))
+                    try:
+                        self.exec(fr, child(n, 'body'), depth)
+                    except _LoopExit as e:
+                        if e.kind == 'BreakStmt':
+                            break
+                    if k == 'ForStmt' and child(n, 'inc') is not None:
+                        self.ev(fr, child(n, 'inc'), depth)
+                    cur = self.ev(fr, c0, depth)
+                if isinstance(cur, (int, bool)) or n_iter == 0:
+                    self.act('ENDLOOP')
+                    return
+                # the condition became unknown: fall through to the summarising treatment
+                enter = self.to_bool(fr, cur, c0, 'LOOP')
+            else:
+                enter = self.to_bool(fr, cv0, c0, 'LOOP')
         if enter:
             try:
                 self.exec(fr, child(n, 'body'), depth)
             except _LoopExit:
                 pass
             self.act('ITER1END', self.off)
+            self.model.after_first_iteration(self, fr, n)
             if k == 'ForStmt':
                 inc = child(n, 'inc')
                 if inc is not None:
@@ -964,4 +988,7 @@ class Model(object):
         return NotImplemented
 
     def after_loop(self, it, fr, n):
+        pass
+
+    def after_first_iteration(self, it, fr, n):
         pass
